@@ -229,6 +229,12 @@ def run_check(prop, tier, seed):
         "truncated_shards": truncated, "nshards": nshards, "tier": tier, "seed": seed,
     }
 
+    # checks whose oracle compares what different worker processes observed (C15, C19) decide here
+    if hasattr(mod, "cross_check"):
+        for sig, detail, case in mod.cross_check(agg) or []:
+            viols.append({"t": "viol", "sig": sig, "detail": detail, "case": case, "shard": -1})
+            viol_counts[sig] += 1
+
     known = findings.load()
     by_sig = collections.OrderedDict()
     for v in viols:
